@@ -116,6 +116,7 @@ func (pq *pqList) Expire(now time.Time) []interface{} {
 			return out
 		}
 		expired := heap.Pop(&pq.pq).(*bucket)
+		delete(pq.buckets, expired.deadline)
 		for _, v := range expired.data {
 			out = append(out, v.value)
 		}
